@@ -9,6 +9,7 @@ package zzsimrt
 
 import (
 	"fmt"
+	"runtime"
 	"sort"
 )
 
@@ -38,6 +39,7 @@ type Task struct {
 	overHits map[int32]int
 	// set while the task is parked in the scheduler
 	parked bool
+	memHit bool
 }
 
 var (
@@ -49,6 +51,11 @@ var (
 
 	// AllocLimit is the largest slice allocation (bytes) the guard lets through.
 	AllocLimit int64 = 256 << 20
+
+	// HeapLimit: when the live heap passes this during an operation on inputs of
+	// at most a few hundred KiB, the operation is exhausting memory. Checked
+	// every 2^20 steps (reading memory statistics is not free).
+	HeapLimit uint64 = 1536 << 20
 
 	// DefaultMapOrder is used when no task is current (package init, the
 	// repository's own tests on the instrumented copy): 0 native, 1 ascending,
@@ -81,6 +88,7 @@ func (t *Task) BeginOp(budget int64) {
 	t.Budget = budget
 	t.over = 0
 	t.overHits = nil
+	t.memHit = false
 }
 
 // P is called at every function entry and loop iteration of the code under test.
@@ -93,6 +101,14 @@ func P(site int32) {
 	t.Total++
 	if int(site) < len(Hits) {
 		Hits[site]++
+	}
+	if t.Budget > 0 && t.Steps&0xFFFFF == 0 && !t.memHit {
+		var ms runtime.MemStats
+		runtime.ReadMemStats(&ms)
+		if ms.HeapAlloc > HeapLimit {
+			t.memHit = true
+			t.Budget = t.Steps - 1 // attribute the hot loop, then abort
+		}
 	}
 	if t.Budget > 0 && t.Steps > t.Budget {
 		t.overBudget(site)
@@ -130,6 +146,9 @@ func (t *Task) overBudget(site int32) {
 	}
 	steps := t.Steps
 	t.Budget = 0 // let deferred code run freely while unwinding
+	if t.memHit {
+		panic(&Abort{Kind: "mem", Site: best, Detail: fmt.Sprintf("live heap above %d MiB after %d steps", HeapLimit>>20, steps)})
+	}
 	panic(&Abort{Kind: "steps", Site: best, Detail: fmt.Sprintf("no return after %d steps", steps)})
 }
 
